@@ -1,30 +1,29 @@
-(** C07 - overflow, underflow and subnormals follow IEEE exactly; no wrap-around.  PROVED END TO END: [C07_overflow_underflow] (+infinity exactly from 2^emax - 2^(emax-prec-1) on, +0.0 exactly up to 2^(femin-1), zero significand gives +0.0 for every exponent), [parse_float_far_small/large/zero] (exponents up to the i32 limits, where the decimal exponent SATURATES: the result is still the mathematically correct one), subnormals are part of [parse_float_correct] (RN is gradual-underflow rounding).
-    Domain and premise as in props/C01.v: [in_domain] = valid_inputb and at most 2^28 digits, every i32
-    exponent; [deep_ok] is vacuous for the compact configurations and the single residual premise for
-    the Eisel-Lemire ones (see props/C01.v).  Closed by [exact]; the model is tied to /repo by the
-    correspondence harness on every run. *)
+(** C07 - overflow, underflow and subnormals follow IEEE exactly; no wrap-around.  PROVED END TO END: [C07_final] (+infinity exactly from 2^emax - 2^(emax-prec-1) on, +0.0 exactly up to 2^(femin-1), zero significand gives +0.0 for every exponent), [parse_float_far_small/large/zero] (exponents up to the i32 limits, where the decimal exponent SATURATES: the result is still the mathematically correct one); subnormals are part of [parse_float_correct_final] (RN is gradual-underflow rounding).
+    Domain as in props/C01.v: [in_domain] = valid_inputb (ASCII digits, integer part without leading zero, any
+    i32 exponent) and at most 2^28 digits; all eight configurations, both formats, both build modes; NO further
+    premise (the [deep_ok] versions are kept beneath as the intermediate statements).  Closed by [exact]; the
+    model is tied to /repo by the correspondence harness on every run. *)
 
 From Coq Require Import ZArith QArith Qabs List Bool Reals Qreals.
 From Coq Require Import Floats.SpecFloat.
 From Flocq Require Import Core.Core.
-From ML Require Import base.RustSem model.Fmt model.Num model.Number model.Parse model.Lemire model.Bellerophon model.Top
+From ML Require Import base.RustSem model.Fmt model.Num model.Number model.Parse model.Lemire model.Bellerophon model.Vec model.Bigint model.Slow model.Top
   spec.Decimal spec.Round spec.RoundFacts spec.DigitsSuffice gen.Consts gen.Tables gen.BTables gen.PowDump
   proofs.ParseFacts proofs.FastPathFacts proofs.EndToEnd proofs.EndToEnd2 proofs.EndToEnd3 proofs.EndToEnd4 proofs.EndToEnd5 proofs.EndToEnd6 proofs.EndToEnd7
-  proofs.LemireFacts6 proofs.Glue.
+  proofs.LemireFacts6 proofs.Glue proofs.TruncFacts proofs.TruncFacts2 proofs.SlowFacts1 proofs.DeepFallback proofs.DeepFallback2 proofs.Final.
 Import ListNotations.
 
 Open Scope Z_scope.
 
-Theorem C07_C07_overflow_underflow :
+Theorem C07_C07_final :
   forall (c : config) (f : format) (b : build) (i fr : list Z) (e : Z),
          In c ALL_CONFIGS ->
          f = F32 \/ f = F64 ->
          in_domain i fr e ->
-         deep_ok c f b i fr e ->
          ((overflow_thresholdQ f <= dec_value i fr e)%Q -> PF c f b i fr e = Ok (inf_bits f)) /\
          ((dec_value i fr e <= underflow_thresholdQ f)%Q -> PF c f b i fr e = Ok 0) /\
          (digits_to_Z (i ++ fr) = 0 -> PF c f b i fr e = Ok 0).
-Proof. exact C07_overflow_underflow. Qed.
+Proof. exact C07_final. Qed.
 
 Theorem C07_parse_float_far_small :
   forall (c : config) (f : format) (b : build) (i fr : list Z) (e : Z),
@@ -50,15 +49,13 @@ Theorem C07_parse_float_far_zero :
          digits_to_Z (i ++ fr) = 0 -> 400 < e - zlen fr -> PF c f b i fr e = Ok (RN f (dec_value i fr e)).
 Proof. exact parse_float_far_zero. Qed.
 
-Theorem C07_parse_float_correct :
+Theorem C07_parse_float_correct_final :
   forall (c : config) (f : format) (b : build) (i fr : list Z) (e : Z),
          In c ALL_CONFIGS ->
          f = F32 \/ f = F64 ->
          valid_inputb i fr e = true ->
-         zlen i + zlen fr <= 2 ^ 28 ->
-         (compact c = false -> no_deep_fallback_at f b (parse_spec i fr e)) ->
-         PF c f b i fr e = Ok (RN f (dec_value i fr e)).
-Proof. exact parse_float_correct. Qed.
+         zlen i + zlen fr <= 2 ^ 28 -> PF c f b i fr e = Ok (RN f (dec_value i fr e)).
+Proof. exact parse_float_correct_final. Qed.
 
 Theorem C07_overflow_threshold_iff :
   forall f : format,
@@ -75,11 +72,11 @@ Theorem C07_saturation_is_far :
 Proof. exact saturation_is_far. Qed.
 
 
-Print Assumptions C07_C07_overflow_underflow.
+Print Assumptions C07_C07_final.
 Print Assumptions C07_parse_float_far_small.
 Print Assumptions C07_parse_float_far_large.
 Print Assumptions C07_parse_float_far_zero.
-Print Assumptions C07_parse_float_correct.
+Print Assumptions C07_parse_float_correct_final.
 Print Assumptions C07_overflow_threshold_iff.
 Print Assumptions C07_underflow_threshold_iff.
 Print Assumptions C07_saturation_is_far.
